@@ -285,7 +285,50 @@ func fieldOfLoad(v ssa.Value) (*types.Var, ssa.Value) {
 		}
 		v = src
 	}
-	return fieldOfLoadRaw(v)
+	fv, base := fieldOfLoadRaw(v)
+	// a by-value copy of a struct (the parameter of an inlined helper) reads as the struct it copies
+	for i := 0; i < 3 && fv != nil; i++ {
+		src := wholeCopySource(base, fv)
+		if src == nil {
+			break
+		}
+		base = src
+	}
+	return fv, base
+}
+
+// wholeCopySource: base is a local struct that is only ever assigned, as a whole, the value loaded
+// from one other struct, and whose field f is never assigned: the address of that other struct.
+func wholeCopySource(base ssa.Value, f *types.Var) ssa.Value {
+	al, ok := base.(*ssa.Alloc)
+	if !ok || al.Referrers() == nil {
+		return nil
+	}
+	var src ssa.Value
+	for _, ref := range *al.Referrers() {
+		switch x := ref.(type) {
+		case *ssa.Store:
+			if x.Addr != ssa.Value(al) {
+				return nil
+			}
+			l, ok := x.Val.(*ssa.UnOp)
+			if !ok || l.Op != token.MUL {
+				return nil
+			}
+			if src != nil && src != l.X {
+				return nil
+			}
+			src = l.X
+		case *ssa.FieldAddr:
+			if fieldVar(x.X.Type(), x.Field) == f && len(storesTo(x)) > 0 {
+				return nil
+			}
+		case *ssa.UnOp, *ssa.DebugRef:
+		default:
+			return nil
+		}
+	}
+	return src
 }
 
 func fieldOfLoadRaw(v ssa.Value) (*types.Var, ssa.Value) {
@@ -563,7 +606,13 @@ func decidedSuccH(p, b *ssa.BasicBlock, rel []*ssa.BasicBlock, h mergeHist) int 
 	// the input a phi stands for on this path, and the block that input arrived from
 	var from *ssa.BasicBlock
 	var edgeOf func(phi *ssa.Phi) ssa.Value
+	visiting := map[*ssa.Phi]bool{}
 	edgeOf = func(phi *ssa.Phi) ssa.Value {
+		if visiting[phi] {
+			return nil // phis that feed each other around a loop
+		}
+		visiting[phi] = true
+		defer delete(visiting, phi)
 		var v ssa.Value
 		if phi.Block() == b {
 			for i, pp := range b.Preds {
